@@ -62,6 +62,7 @@ var elemWriters = map[string]int{
 	"(encoding/binary.bigEndian).PutUint16": 1, "(encoding/binary.bigEndian).PutUint32": 1, "(encoding/binary.bigEndian).PutUint64": 1,
 	"(encoding/binary.littleEndian).PutUint16": 1, "(encoding/binary.littleEndian).PutUint32": 1, "(encoding/binary.littleEndian).PutUint64": 1,
 	"encoding/binary.Read": 2, "io.ReadFull": 1, "io.ReadAtLeast": 1, "encoding/hex.Encode": 0, "encoding/json.Unmarshal": 1,
+	"(*net/rpc.Client).Call": 3, "(*encoding/json.Decoder).Decode": 1, "(*encoding/gob.Decoder).Decode": 1, "gopkg.in/yaml.v2.Unmarshal": 1,
 	"strconv.AppendInt": 0, "strconv.AppendUint": 0, "strconv.AppendFloat": 0, "strconv.AppendQuote": 0,
 }
 
